@@ -395,6 +395,53 @@ def run3(items):
 ''', [("run", [([1, 2, 3, 4],), ([],)]), ("run2", [(6,), (0,)]), ("run3", [(["{", 1, 2, "x"],), ([],), ([3, "{"],)])])
 
 
+# ---- helper calls in the middle of an expression (hoisting): evaluation order must survive
+case('''
+def _header(n, log):
+    log.append("h")
+    size = n * 2
+    return [size]
+
+def _tail(log):
+    log.append("t")
+    x = len(log)
+    return [x]
+
+def run(n):
+    log = []
+    return _header(n, log) + _tail(log) + log
+
+def run2(n):
+    log = [7]
+    return [log.pop()] + _tail(log) + log
+
+def run3(n):
+    log = []
+    r = (n, _header(n, log)[0], _tail(log))
+    if _tail(log)[0] > 2 and n:
+        r = r + (1,)
+    return r, log
+''', [("run", [(1,), (3,)]), ("run2", [(1,)]), ("run3", [(0,), (2,)])])
+
+
+# ---- the caller's assignment target shares names with the helper's locals
+case('''
+def _header(buf):
+    ident = buf[:2]
+    size = len(buf) - 2
+    return ident, size
+
+def run(buf):
+    ident, n = _header(buf)
+    size = n + 1
+    return ident, n, size
+
+def run2(buf):
+    size, ident = _header(buf)
+    return size, ident
+''', [("run", [([1, 2, 3],), ([],)]), ("run2", [([5, 6, 7, 8],)])])
+
+
 def outcome(ns, fn, args):
     import copy
     try:
